@@ -367,7 +367,7 @@ static int btls_init(struct xcm_socket *s, struct xcm_socket *parent)
 	btcp_parent = TOBTLS(parent)->btcp_socket;
 
     if (xcm_tp_socket_init(bts->btcp_socket, btcp_parent) < 0)
-	return -1;
+	goto err_destroy;
 
     if (s->type == xcm_socket_type_conn) {
 	bts->tls_client = true;
@@ -376,6 +376,9 @@ static int btls_init(struct xcm_socket *s, struct xcm_socket *parent)
 
 	bts->conn.bell_reg_id = xpoll_bell_reg_add(s->xpoll, false);
 
+	if (bts->conn.bell_reg_id < 0)
+	    goto err_close;
+
 	if (parent != NULL)
 	    inherit_tls_conf(s, parent);
     }
@@ -383,6 +386,13 @@ static int btls_init(struct xcm_socket *s, struct xcm_socket *parent)
     LOG_INIT(s);
 
     return 0;
+
+err_close:
+    xcm_tp_socket_close(bts->btcp_socket);
+err_destroy:
+    xcm_tp_socket_destroy(bts->btcp_socket);
+    bts->btcp_socket = NULL;
+    return -1;
 }
 
 static void conn_deinit(struct xcm_socket *s, bool owner)
